@@ -648,6 +648,8 @@ def copy_sign(lhs, rhs, ctx):
     """Element ∆±
     (num, num) -> math.copysign(a, b)
     """
+    if list in vy_type(lhs, rhs, simple=True):
+        return vectorise(copy_sign, lhs, rhs, ctx=ctx)
     return multiply(
         vy_abs(lhs, ctx), (-1 if less_than(rhs, 0, ctx) else 1), ctx
     )
